@@ -347,7 +347,79 @@ def _c13_extra():
                      "def dist_step (rank world : Int) : Int := world\n")
         status["dist_start"] = f"skipped: {e}"
         status["dist_step"] = f"skipped: {e}"
+    # --- phase 2 tables: call sites of build_batch_sampler, DistributedSampler structure, concat draw
+    E = "direct/engine.py"
+    for name, fnc, fb in (("batch_sampler_calls", lambda: _bbs_calls(parse_file(REPO / E)), "Sampler.expectedBatchSamplerCalls"),
+                          ("dist_structure", lambda: _dist_structure(parse_file(REPO / S)), "Sampler.expectedDistStructure"),
+                          ("concat_next", lambda: _concat_next(parse_file(REPO / S)), "Sampler.expectedConcatNext")):
+        try:
+            parts.append(f"/-- read from the source -/\ndef {name} : List String :=\n  " + _lean_strs_nl(fnc()) + "\n")
+            status[name] = "translated"
+        except Untranslatable as e:
+            parts.append(f"/-- SKIPPED ({e}) -/\ndef {name} : List String := {fb}\n")
+            status[name] = f"skipped: {e}"
     return "\n".join(parts), status
+
+
+def _lean_strs_nl(xs):
+    return "[" + ",\n   ".join('"' + x.replace("\\", "\\\\").replace('"', '\\"') + '"' for x in xs) + "]"
+
+
+def _bbs_calls(tree) -> list[str]:
+    out = []
+    for cls in ast.walk(tree):
+        if isinstance(cls, ast.ClassDef):
+            for fn in cls.body:
+                if isinstance(fn, ast.FunctionDef):
+                    for n in ast.walk(fn):
+                        if isinstance(n, ast.Call) and ast.unparse(n.func) == "self.build_batch_sampler":
+                            args = [ast.unparse(a) for a in n.args] + [f"{k.arg}={ast.unparse(k.value)}" if k.arg else
+                                                                       "**" + ast.unparse(k.value) for k in n.keywords]
+                            out.append(f"{fn.name}: ({', '.join(args)})")
+    return sorted(out)
+
+
+def _gen_outline(stmts, ind="") -> list[str]:
+    out = []
+    for st in stmts:
+        if isinstance(st, ast.Assign):
+            out.append(f"{ind}{ast.unparse(st.targets[0])}={ast.unparse(st.value)}")
+        elif isinstance(st, ast.Expr) and isinstance(st.value, (ast.Yield, ast.YieldFrom, ast.Call)):
+            t = ast.unparse(st.value)
+            out.append(ind + (t[1:-1] if t.startswith("(yield") and t.endswith(")") else t))
+        elif isinstance(st, ast.While):
+            out.append(f"{ind}while {ast.unparse(st.test)}")
+            out += _gen_outline(st.body, ind + "  ")
+        elif isinstance(st, ast.If):
+            out.append(f"{ind}if {ast.unparse(st.test)}")
+            out += _gen_outline(st.body, ind + "  ")
+            if st.orelse:
+                out.append(f"{ind}else")
+                out += _gen_outline(st.orelse, ind + "  ")
+        elif isinstance(st, ast.Return):
+            out.append(f"{ind}return {ast.unparse(st.value)}")
+        elif isinstance(st, ast.Expr):
+            continue
+        else:
+            out.append(f"{ind}other:{type(st).__name__}")
+    return out
+
+
+def _dist_structure(tree) -> list[str]:
+    cls = [n for n in tree.body if isinstance(n, ast.ClassDef) and n.name == "DistributedSampler"]
+    if not cls:
+        raise Untranslatable("class DistributedSampler not found")
+    methods = sorted(f.name for f in cls[0].body if isinstance(f, ast.FunctionDef))
+    return ["methods: " + ", ".join(methods)] + _gen_outline(find_function(tree, "DistributedSampler._infinite_indices").body)
+
+
+def _concat_next(tree) -> list[str]:
+    init = find_function(tree, "ConcatDatasetBatchSampler.__init__")
+    out = []
+    for st in init.body:
+        if isinstance(st, ast.Assign) and ast.unparse(st.targets[0]) in ("self.samplers", "self.weights", "self.cumulative_sizes"):
+            out.append(f"{ast.unparse(st.targets[0])}={ast.unparse(st.value)}")
+    return out + _gen_outline(find_function(tree, "ConcatDatasetBatchSampler.__next__").body)
 
 
 EXTRA["C13"] = _c13_extra
